@@ -124,6 +124,12 @@ FINDINGS = [
     ("finding-A1-object", "type Query { q: Int } extend type Query { o: O } extend type O { y: Int }", [O], {}, {"members": {"O": ["x", "y"]}}),
 ]
 
+# hunt4 C11-1 (known finding C11/H4-1), the variants the by-name model does not predict: direct oracle only
+FINDINGS += [
+    ("finding-H4-defaulted-backref", "input In { a: Int other: Other = null } input Other { x: In = {a: 3} } type Query { f(o: Other): String } "
+     "extend input In { added: Int = 7 }", [], {}, {"defaults": {"Other.x": {"a": 3, "added": 7, "other": None}}}),
+]
+
 # measured, not compared with the model (residual, see ASSUMPTIONS of corr/C11.py)
 UNMODELLED = [
     ("supplied-default-completed-by-other-extension", "type Query { q(j: J): Int } extend input I { b: Int = 3 }",
